@@ -71,6 +71,9 @@ def simulate(case):
                     w.peer("0", None)
                 elif kind == "app":
                     w.peer("D", None, [(11, f"a{k}")])
+                elif kind == "app_gap":
+                    w.peer_seq += 1  # an earlier frame of the peer was lost: numbered above expectation
+                    w.peer("D", None, [(11, f"g{k}")])
                 elif kind in ("tr", "tr_gap"):
                     nid += 1
                     rid = f"P{nid}"
@@ -94,6 +97,8 @@ def simulate(case):
                         answered.add(rid)
                     elif mode == "wrong":
                         w.peer("0", None, [(112, "424242")])
+                    elif mode == "wrong_hi":
+                        w.peer("0", None, [(112, str(int(rid) + 1) if str(rid).isdigit() else "99999999999")])
                     elif mode == "noid":
                         w.peer("0", None)
                     tl["arrivals"].append(k)
@@ -166,7 +171,7 @@ def judge(case, tl):
     disc = tl["disc"]
     end = disc if disc is not None else H
     trs = [k for k, _ in tl["tr"]]
-    wrong_mode = ans and ans[0] == "wrong"
+    wrong_mode = ans and ans[0] in ("wrong", "wrong_hi")
     # 1. every inbound TestRequest answered with the same id (immediately, same step)
     got = {rid: k for k, rid in tl["hb_replies"]}
     for k, rid in tl["inbound_tr"]:
@@ -222,7 +227,7 @@ def judge(case, tl):
         due = k0 + ans[1]
         if due <= H and (disc is None or disc >= due):
             if disc is None or disc > due + 1:
-                V("wrong_testreqid_not_disconnected", hbclass, "a Heartbeat echoing a wrong TestReqID ends the session with a Logout", due=due)
+                V("wrong_testreqid_not_disconnected", hbclass + (":id_above_expected" if ans[0] == "wrong_hi" else ""), "a Heartbeat echoing a wrong TestReqID ends the session with a Logout", due=due)
             elif not tl["logout"]:
                 V("wrong_testreqid_no_logout", hbclass, "a Heartbeat echoing a wrong TestReqID ends the session with a Logout", due=due)
     if case.get("second_life") and tl.get("life2_state0") is not None:
@@ -264,7 +269,13 @@ def scripted_cases(quick):
                         cases.append(mk(answer=("right", d)))
                     for d in sorted({0, hq}):
                         cases.append(mk(answer=("wrong", d)))
+                        cases.append(mk(answer=("wrong_hi", d)))
                         cases.append(mk(answer=("noid", d)))
+                    if hb >= 2:
+                        # a sequence gap (filled by the peer on request) while a TestRequest is pending, answer arrives late
+                        for at in sorted({hq, hq + 2, hq + 4}):
+                            cases.append(mk(arrivals={at: ["app_gap"]}, answer=("right", 2 * hq - 4)))
+                            cases.append(mk(arrivals={at: ["app_gap"]}, answer=("right", hq + hq // 2)))
                     # periodic traffic, with and without answering
                     for per in sorted({max(1, hq // 2), max(1, hq - 4), hq, hq + 4, 2 * hq}):
                         hor = 12 * hq if hb < 30 else 5 * hq
